@@ -30,6 +30,12 @@ def _run_main(ctx):
     ctx.assumptions += ["prompts of distinct levels are distinguishable (Exact); a secondary secret is configured", "the device changes mode only through the driver"]
     if ctx.replay:
         rp = json.load(open(ctx.replay))["scenario"]
+        if rp.get("kind") == "platform-variant":
+            for r in ctx.run_harness("c04variant", []):
+                ctx.count()
+                if not r["ok"] and r["variant"] == rp["variant"]:
+                    ctx.violation(r["sig"], r["detail"], rp)
+            return
         for r in ctx.run_harness("c04", [rp]):
             ctx.count()
             if not r["ok"]:
@@ -77,7 +83,19 @@ def _run_main(ctx):
                 if bad:
                     st["ok"] += 1
                     ctx.violation(bad["sig"], bad["detail"], rp)
-    ctx.traces_validated = len(res)
+    # drivers built from a platform definition and its variants: the default desired level in force is the variant's exactly when
+    # the variant names one
+    resv = ctx.run_harness("c04variant", [], timeout=300)
+    if len(resv) != 5:
+        raise ToolError("c04variant answered %d of 5; stderr:\n%s" % (len(resv), ctx.last_stderr[-2000:]))
+    for rr in resv:
+        ctx.count()
+        ctx.nontriv("platform/" + rr["variant"])
+        if not rr["ok"]:
+            again = [x for x in ctx.run_harness("c04variant", [], timeout=300) if x["variant"] == rr["variant"] and not x["ok"]]
+            if again:
+                ctx.violation(again[0]["sig"], again[0]["detail"], {"kind": "platform-variant", "variant": rr["variant"]})
+    ctx.traces_validated = len(res) + len(resv)
     ctx.sample({"scenario": scns[1]})
 
 
